@@ -333,13 +333,14 @@ def encH8 [Variant α] (h : H8 α) : Bytes :=
 def initH (α : Type) [Variant α] (size keyLen : Nat) : H8 α :=
   { ivH α with a0 := iv0 ^^^ (ofNat (size + keyLen * 256 + 65536 + 16777216) : α) }
 
-/-- BLAKE2b: 64-bit words, 128-byte blocks.  `comp` is the RFC compression function. -/
+/-- BLAKE2b: 64-bit words, 128-byte blocks.  `comp` is the Go-shaped block step of hashBlocksGeneric
+    (`compressGo_eq_F` in Proofs/C05 shows it is the RFC compression function F). -/
 def B : Alg where
   H := H8 UInt64
   C := UInt64 × UInt64
   bs := 128
   maxSize := 64
-  comp h c last blk := F h blk c.1 c.2 last
+  comp h c last blk := compressGo h blk c.1 c.2 (if last then ones else zero)
   cinc c := let c0 := c.1 + 128; (c0, if c0 < 128 then c.2 + 1 else c.2)
   cdec c r := let r := UInt64.ofNat r; (c.1 - r, if c.1 < r then c.2 - 1 else c.2)
   cof t := (UInt64.ofNat t, UInt64.ofNat (t / 2^64))
@@ -359,7 +360,7 @@ def S : Alg where
   C := UInt32 × UInt32
   bs := 64
   maxSize := 32
-  comp h c last blk := F h blk c.1 c.2 last
+  comp h c last blk := compressGo h blk c.1 c.2 (if last then ones else zero)
   cinc c := let c0 := c.1 + 64; (c0, if c0 < 64 then c.2 + 1 else c.2)
   cdec c r := let r := UInt32.ofNat r; (c.1 - r, if c.1 < r then c.2 - 1 else c.2)
   cof t := (UInt32.ofNat t, UInt32.ofNat (t / 2^32))
@@ -422,28 +423,27 @@ def directLen (bs len : Nat) : Nat :=
   let nn := len / bs * bs
   if len = nn then nn - bs else nn
 
+/-- the part of Write after a partial block has been flushed (`d.offset = 0` here): hash all full
+    blocks but keep the last one back, then buffer the rest -/
+def Digest.writeTail (d : Digest A) (p : Bytes) : Digest A :=
+  let dp : Digest A × Bytes :=
+    if p.length > A.bs then
+      let nn := directLen A.bs p.length
+      let hc := hashBlocks A d.h d.c false (p.take nn)
+      ({ d with h := hc.1, c := hc.2 }, p.drop nn)
+    else (d, p)
+  { dp.1 with block := copyAt dp.1.block 0 dp.2, offset := dp.1.offset + dp.2.length }
+
 def Digest.write (d : Digest A) (p : Bytes) : Digest A :=
-  if d.offset > 0 ∧ p.length ≤ A.bs - d.offset then
-    { d with block := copyAt d.block d.offset p, offset := d.offset + p.length }
-  else
-    let dp : Digest A × Bytes :=
-      if d.offset > 0 then
-        let remaining := A.bs - d.offset
-        let blk := copyAt d.block d.offset (p.take remaining)
-        let hc := hashBlocks A d.h d.c false blk
-        ({ d with block := blk, h := hc.1, c := hc.2, offset := 0 }, p.drop remaining)
-      else (d, p)
-    let d := dp.1
-    let p := dp.2
-    let dp : Digest A × Bytes :=
-      if p.length > A.bs then
-        let nn := directLen A.bs p.length
-        let hc := hashBlocks A d.h d.c false (p.take nn)
-        ({ d with h := hc.1, c := hc.2 }, p.drop nn)
-      else (d, p)
-    let d := dp.1
-    let p := dp.2
-    { d with block := copyAt d.block 0 p, offset := d.offset + p.length }
+  if d.offset > 0 then
+    let remaining := A.bs - d.offset
+    if p.length ≤ remaining then
+      { d with block := copyAt d.block d.offset p, offset := d.offset + p.length }
+    else
+      let blk := copyAt d.block d.offset (p.take remaining)
+      let hc := hashBlocks A d.h d.c false blk
+      Digest.writeTail { d with block := blk, h := hc.1, c := hc.2, offset := 0 } (p.drop remaining)
+  else d.writeTail p
 
 /-- `finalize`: pad the buffer, pre-subtract the padding from the counter, compress with the final flag -/
 def Digest.finalize (d : Digest A) : A.H :=
